@@ -51,6 +51,7 @@ def scenarios(draw):
     lines = ['units raw'] if raw else []
     plan = []       # ('delay', seconds) | ('cmd',) | ('until', pattern)
     current = 0
+    long_used = False
     for _ in range(draw(st.integers(3, 8))):
         kind = draw(st.sampled_from(
             ['time', 'time', 'time', 'keep', 'timeat', 'units']))
@@ -62,6 +63,11 @@ def scenarios(draw):
         if kind == 'time':
             current = draw(st.sampled_from(
                 [0, 0.125, 0.25, 0.5, 1.0, 1.5, 3.0]))
+            if tick >= 1.0 and not long_used and draw(
+                    st.integers(0, 3)) == 0:
+                # longer than 16 bits' worth of milliseconds
+                current = draw(st.sampled_from([66.0, 70.5, 100.0]))
+                long_used = True
             text = '{:g}'.format(current * 1000 if raw else current)
             lines.append('time ' + text)
         elif kind == 'timeat' and tick >= 0.125 and not any(
@@ -272,7 +278,10 @@ def check(acc, scenario, schedule, label='random'):
                        scenario.get('late_ticks'), schedule)),
              nontrivial=nontrivial,
              labels=[label, 'raw' if scenario['scripts']['s'].startswith(
-                 'units raw') else 'logical'] + labels,
+                 'units raw') else 'logical'] + labels + (
+                     ['delay-beyond-65535-ms'] if any(
+                         step[0] == 'delay' and step[1] > 65.535
+                         for step in scenario.get('plan', [])) else []),
              sample={'script': scenario['scripts']['s'],
                      'tick': scenario['tick'], 'work': scenario['work'],
                      'start': scenario['start'],
